@@ -241,6 +241,9 @@ pub async fn run_case(c: Case) -> Result<CaseInfo, Failure> {
     .map_err(|f| fail(&c, "harness-handshake", f.detail))?;
     let app = w.eut.app().clone();
     app.hold_stop.set(c.hold_stop);
+    if c.hold_stop {
+        app.hold(G_STOP, 0);
+    }
     let cut = usize::from(c.cut).min(steps.len());
     for op in &steps[..cut] {
         w.apply(*op).await.map_err(|f| fail(&c, &f.rule, f.detail))?;
